@@ -246,6 +246,13 @@ class CircuitCompositeOperation(ICircuitCompositeOperation):
             graph=self._circuit_graph,
             operation=operation,
         )
+        # Head operation (without relation) starts together with the other head operations of self,
+        # also when these already received the relation link of self (self is part of another circuit and was decomposed before)
+        added_link: IRelationLink = operation.relation_link
+        if isinstance(added_link, RelationLink) and added_link.reference_node is None:
+            head_operations: List[ICircuitOperation] = [node.operation for node in self._circuit_graph.get_nodes_at(depth=1)]
+            if any(CircuitCompositeOperation._is_handed_link(head.relation_link, self.relation_link) for head in head_operations):
+                operation.relation_link = CircuitCompositeOperation._instantiate_link(self.relation_link)
         # Duration of self (and start time of everything related to self) changed, clear memoized start times
         RelationLink.get_start_time.cache_clear()
         MultiRelationLink.get_start_time.cache_clear()
